@@ -324,6 +324,11 @@ namespace {
       } else if (rng.chance(200)) {
         s = g.ifdecl(depth) + " "; // directly at top level: a leaked declaration shows up in get_locals()
       }
+      if (i == ns - 1 && g.sub_engines_left > 0) {
+        // the program was chosen to meet other engines and no expression has drawn one yet: a directed statement
+        --g.sub_engines_left;
+        s += "fun(a) { var k = " + g.cb() + "; { var inner = k; return sub_engine(" + std::to_string(g.has_pre_engine ? 1 : 0) + ") + inner + " + g.cb() + " } }(1); ";
+      }
       s += "var v" + std::to_string(i) + " = " + g.expr(depth) + "; mark(" + std::to_string(i) + ");";
       J st = J::object();
       st["s"] = J(s);
